@@ -235,3 +235,69 @@ func evalTypeOf(pk *packages.Package, fd *ast.FuncDecl, recv, arg string, sys, r
 	}
 	return v, true
 }
+
+// prefilterFoldsRule (C03/PREFILTER-FOLDS): PEP 440 is case-insensitive and the
+// PyPI parser matches its keywords through hasASCIIPrefix, which folds case.
+// possibleVersionString, the filter in front of every Parse, looks the first
+// letters of the text up in the (lower-case) alphabet lettersInPyPI; if it does
+// not fold the rune first, an upper-case letter in the first three bytes
+// ("1RC1", so also the specifier ">=1RC1") is refused before the parser, which
+// would accept it, is ever asked.
+func prefilterFoldsRule(r *Report, p *Prog, rule string) {
+	pk := p.pkg("semver")
+	key := "semver.(System).possibleVersionString: letters are looked up case-insensitively"
+	var fd *ast.FuncDecl
+	if pk != nil {
+		for _, f := range pk.Syntax {
+			for _, d := range f.Decls {
+				if x, ok := d.(*ast.FuncDecl); ok && x.Name.Name == "possibleVersionString" {
+					fd = x
+				}
+			}
+		}
+	}
+	if fd == nil {
+		r.bad(rule, key, "", "possibleVersionString not found: anchor lost")
+		return
+	}
+	found := false
+	folded := true
+	var at token.Pos
+	ast.Inspect(fd.Body, func(n ast.Node) bool {
+		c, ok := n.(*ast.CallExpr)
+		if !ok || len(c.Args) != 2 {
+			return true
+		}
+		sel, ok := c.Fun.(*ast.SelectorExpr)
+		if !ok || (sel.Sel.Name != "ContainsRune" && sel.Sel.Name != "IndexRune" && sel.Sel.Name != "IndexByte") {
+			return true
+		}
+		if id, ok := c.Args[0].(*ast.Ident); !ok || id.Name != "lettersInPyPI" {
+			return true
+		}
+		found = true
+		at = c.Pos()
+		switch x := ast.Unparen(c.Args[1]).(type) {
+		case *ast.CallExpr:
+			s, ok := x.Fun.(*ast.SelectorExpr)
+			if !ok || s.Sel.Name != "ToLower" {
+				folded = false
+			}
+		case *ast.BinaryExpr:
+			if x.Op != token.OR {
+				folded = false
+			}
+		default:
+			folded = false
+		}
+		return true
+	})
+	switch {
+	case !found:
+		r.bad(rule, key, p.pos(fd.Pos()), "no lookup in lettersInPyPI found: anchor lost")
+	case !folded:
+		r.bad(rule, key, p.pos(at), "the rune is looked up in the lower-case alphabet as written, although PEP 440 and the parser behind this filter are case-insensitive: a version or specifier with an upper-case letter among its first three bytes (1RC1, >=1RC1) is refused, while 1rc1 and 1.0RC1 are accepted")
+	default:
+		r.ok(rule, key, p.pos(at), "the rune is folded to lower case before the lookup")
+	}
+}
